@@ -431,6 +431,28 @@ def run_check(prop, tier, seed):
         else:
             inconcl.append('native run does not reach %s on its witness (%s)' % (c['assert_id'], c['job']['id']))
 
+    # C13: cold start under concurrency, in a fresh process built with the race detector
+    if spec.get('race') and not fatal:
+        try:
+            cold = Runner(work, race=True)
+            if cold.build():
+                for attempt in range(3):
+                    p = subprocess.run([cold.bin, '-test.run', '^TestVerifColdStart$', '-test.count=1', '-test.timeout', '300s'],
+                                       env=dict(GOENV, VERIF_COLD='1'), capture_output=True, text=True, cwd=work.dir, timeout=400)
+                    txt = p.stdout + p.stderr
+                    validated += 1
+                    if 'DATA RACE' in txt or 'COLD-MISMATCH' in txt:
+                        what = 'data race' if 'DATA RACE' in txt else 'results differ'
+                        sig = 'cold-start|%s' % what
+                        confirmed[sig] = dict(sig=sig, assert_id='no-data-race-cold-start', harness='TestVerifColdStart', args=[], vector=[], pkg='spdxexp', internal=False, race=True,
+                                              notes={'text': 'first calls from 16 goroutines in a fresh process: ' + what}, panic=None, panic_at=None, count=1, kind='coldstart',
+                                              report=txt[-1800:])
+                        break
+            else:
+                inconcl.append('race-enabled runner does not build: ' + str(cold.err)[:300])
+        except Exception as e:
+            inconcl.append('cold-start run failed: %r' % (e,))
+
     # known findings
     known = [k for k in load_known() if k.get('property') == prop and k.get('status', 'open') == 'open']
     violations, known_seen = [], []
@@ -545,6 +567,19 @@ def replay_file(path):
         rec = json.load(f)
     ensure_engine()
     work = Work('replay')
+    if rec.get('kind') == 'coldstart':
+        cold = Runner(work, race=True)
+        if not cold.build():
+            log('runner does not build')
+            return 2
+        p = subprocess.run([cold.bin, '-test.run', '^TestVerifColdStart$', '-test.count=1'], env=dict(GOENV, VERIF_COLD='1'), capture_output=True, text=True, cwd=work.dir)
+        txt = p.stdout + p.stderr
+        log(txt[-2000:])
+        if 'DATA RACE' in txt or 'COLD-MISMATCH' in txt:
+            log('VIOLATION property=%s replay=%s' % (rec.get('property'), path))
+            return 1
+        log('not reproduced on the current tree')
+        return 0
     runner = Runner(work, pkg=rec.get('pkg', 'spdxexp'), internal=bool(rec.get('internal')), race=bool(rec.get('race')))
     rp = runner.run([dict(id='r0', harness=rec['harness'], args=rec['args'], vector=rec['vector'])]).get('r0', {})
     log(json.dumps(rp, indent=1))
